@@ -4,7 +4,7 @@ use futures::future::BoxFuture;
 use remoc::chmux::Cfg;
 use std::{sync::Arc, time::Duration};
 
-use super::c01::{Obs, Op, RecvStyle, receive_all, run_script};
+use super::c01::{End, Obs, Op, RecvStyle, receive_all, run_script};
 use crate::{
     explore::{Params, explore},
     monitor::Ledger,
@@ -17,6 +17,8 @@ use crate::{
 #[derive(Default)]
 struct Probe {
     pool: Option<i64>,
+    /// the receive buffer the peer advertised (pool + outstanding)
+    rb: Option<i64>,
     probe_ok: Option<bool>,
     script_done: bool,
     setup_err: Option<String>,
@@ -121,6 +123,7 @@ impl Scenario for LeakScenario {
             let ledger = Ledger::build(0, max_ports, &env.wire.snapshot());
             let pool = ledger.rec_of(0, local_port).map(|r| ledger.pool(r, 0));
             p2.lock().unwrap().pool = pool;
+            p2.lock().unwrap().rb = ledger.rec_of(0, local_port).map(|r| ledger.pool(r, 0) + (r.flow[0].cost_sent as i64 - r.flow[0].credits_delivered as i64));
             if let Some(pool) = pool {
                 if pool > 0 {
                     // No new credit can reach the sender while the reverse direction is held.
@@ -163,6 +166,19 @@ impl Scenario for LeakScenario {
                     } else {
                         v.fail("C03", "stuck-at-shutdown", format!("results {:?} recv_end {:?}", o.results, o.recv_end));
                     }
+                }
+            }
+            // with everything consumed and every credit frame delivered, the receiver may hold back less than its
+            // return threshold (half its buffer; 1 for buffers below 8); more means consumed credit is never returned
+            if let (Some(pool), Some(rb), Ending::Completed) = (p.pool, p.rb, out.ending) {
+                let threshold = if rb >= 8 { rb / 2 } else { 1 };
+                let outstanding = rb - pool;
+                if p.script_done && outstanding >= threshold {
+                    v.fail(
+                        "C03",
+                        "consumed-credit-not-returned",
+                        format!("after the script {:?} the receiver has consumed everything, yet {outstanding} of {rb} credits are outstanding (return threshold {threshold})", o.results),
+                    );
                 }
             }
             if p.probe_ok == Some(false) {
@@ -463,6 +479,17 @@ pub fn leak_scenarios(tier: Tier) -> Vec<Arc<dyn Scenario>> {
     let link = LinkOpts { capacity: 1, deliver_cap: 1, eof_on_drop: false };
     let cfgs = [(cfg(4, 16, 16, 1, 1), cfg(4, 16, 16, 1, 1)), (cfg(8, 16, 16, 1, 1), cfg(4, 9, 16, 1, 1))];
     let max_p = if tier == Tier::Quick { 5 } else { 9 };
+    // empty messages cost one credit each and must give it back like any other
+    for (a, b) in &cfgs {
+        for k in [1usize, 3, 8, 17] {
+            let mut script = vec![Op::Send(0); k];
+            script.push(Op::Send(3));
+            out.push(Arc::new(LeakScenario { cfg_a: a.clone(), cfg_b: b.clone(), script: script.clone(), link, style: RecvStyle::AnyAfterCancel }));
+            let mut script = vec![Op::Chunks(vec![2, 2], End::Finish); k.min(8)];
+            script.push(Op::Send(3));
+            out.push(Arc::new(LeakScenario { cfg_a: a.clone(), cfg_b: b.clone(), script, link, style: RecvStyle::AnyAfterCancel }));
+        }
+    }
     for (a, b) in &cfgs {
         let q = (b.receive_buffer / 4) as usize;
         for p in 0..max_p {
